@@ -1,6 +1,6 @@
 SPECIFICATION Spec
 CONSTANTS
- NBases = 3
+ NBases = 2
  ZoneStep = 1
 ACTION_CONSTRAINT Emit
 INVARIANTS ReadsOwnText ZoneShift PatternReads Unvouched
